@@ -54,7 +54,7 @@ def run(ck):
     # the handler clone shares the router (documented premise of R1)
     rh = prog.cls("Pistache::Rest::Private::RouterHandler")
     rf = [x for x in rh["fields"] if x["name"] == "router"]
-    ck.ob("C09-R1", "premise:RouterHandler::router-shared", bool(rf) and "shared_ptr" in rf[0]["type"], "%s:%s" % (rh["file"], rf[0]["line"] if rf else 0), "",
+    ck.ob("C09-R1", "premise:RouterHandler::router-shared", bool(rf) and "shared_ptr" in (rf[0].get("ctype") or rf[0]["type"]), "%s:%s" % (rh["file"], rf[0]["line"] if rf else 0), "",
           "router is held by %s: worker clones share one Router" % (rf[0]["type"] if rf else "?"), nontrivial=False)
 
     # ---------------- R5: the serving path writes no process-wide state ----------------
